@@ -40,9 +40,11 @@ ASSUME = [
     "aya moves [u32; N] keys/values as native-endian memory images (Pod); BpfObject::lookup_audit itself needs a "
     "live map, so its AuditEntry literal is lifted textually from linux.rs and compiled (codec reports "
     "cast_from_source)",
-    "property quantifier: at most max_entries (200) connections in flight; a connect that passes connect4 reaches "
-    "tcp_connect; the agent registers its pid while none of its threads is mid-connect; a source port is reused "
-    "only after its record is gone",
+    "property quantifier: at most max_entries (200) connections in flight, so the LRU maps evict nothing but "
+    "leftovers (records whose connection ended unconsumed and which are the least recently used entries); a connect "
+    "that passes connect4 reaches tcp_connect; the agent registers its pid while none of its threads is mid-connect; "
+    "a source port is reused only after its connection ended -- its record may still be in the map (the client went "
+    "away before the proxy's accept), and the record the agent then reads under the port must be the new connect's",
 ]
 
 
@@ -272,6 +274,11 @@ class Machine:
             r = sim.ask("del audit " + self.akey(st["sport"]))
             achg, agone, local = self._after(r)
             row = {"e": "consume", "sport": st["sport"], "found": r["ret"] == 0, "achg": achg, "agone": agone}
+        elif op == "end":
+            # the connection on this port ends, nobody consumed its record: no hook runs, no map operation
+            r = sim.ask("nop")
+            achg, agone, local = self._after(r)
+            row = {"e": "end", "sport": st["sport"], "achg": achg, "agone": agone}
         elif op == "connect4":
             t = st["t"]
             sim.ask("thread %d %d %d %d" % (t["pid"], t["tid"], t["uid"], t["gid"]))
@@ -311,39 +318,61 @@ class Machine:
 def diagnose(rows):
     """Same judgement as spec/trace/EbpfTrace.tla, used to *name* what TLC rejects (the verdict is TLC's).
     Returns None or dict(p, f, kind, row)."""
-    pol, skp, pend, recd = {}, set(), {}, set()
+    pol, skp, pend, recd, left = {}, set(), {}, set(), set()
 
     def bad(i, p, f, kind=None):
         return {"p": p, "f": f, "kind": kind or f, "row": i}
 
+    def mine_of(r, mode):
+        """the record read under the port is judged as this connect's own, unless the port carried a leftover
+        which this step left exactly as it was (and the connect need not produce a record)"""
+        kept = r["rec"]["present"] and r["sport"] in left and not r["achg"]
+        return r["rec"]["present"] and (mode == "must" or not kept)
+
     def judge(i, r, mode, agent, oip, oport):
         rec = r["rec"]
+        mine = mine_of(r, mode)
+        # a diverted connect reads, under its own source port, the untouched record of an earlier connection
+        stale = mode == "must" and rec["present"] and r["sport"] in left and not r["achg"]
         if mode == "must" and not rec["present"]:
             return bad(i, "RecordTruth", "missing", "record-missing")
-        if mode == "none" and rec["present"]:
+        if mode == "none" and mine:
             return bad(i, "AgentUntouched" if agent else "NoRecordOtherwise", "record",
                        "agent-recorded" if agent else "record-for-unlisted")
-        if rec["present"]:
+        if mine:
             if rec["logon"] != r["uid"] or rec["admin"] != (1 if r["uid"] == "0" else 0):
                 f = "logon" if rec["logon"] != r["uid"] else "admin"
                 from_gid = rec["logon"] == r["gid"] and rec["admin"] == (1 if r["gid"] == "0" else 0)
-                return bad(i, "RecordTruth", f, "uid-from-gid" if from_gid else "record-" + f)
+                return bad(i, "RecordTruth", f, "stale-record-on-reused-port" if stale else
+                           "uid-from-gid" if from_gid else "record-" + f)
             for f, want in (("pid", r["pid"]), ("ip", oip), ("port", oport)):
                 if rec[f] != want:
-                    return bad(i, "RecordTruth", f, "record-" + f)
+                    return bad(i, "RecordTruth", f, "stale-record-on-reused-port" if stale else "record-" + f)
         if any(a["proto"] != TCP or a["sport"] != r["sport"] for a in r["achg"]):
             return bad(i, "NoRecordOtherwise", "other-key", "record-under-other-key")
         if not rec["present"] and r["achg"]:
             return bad(i, "NoRecordOtherwise", "unreadable-record")
-        if r["agone"]:
+        if not set(r["agone"]) <= left:
             return bad(i, "RecordTruth", "earlier-record-lost")
         return None
+
+    def after_tcp(r, mode):
+        mine = mine_of(r, mode)
+        if r["rec"]["present"]:
+            recd.add(r["sport"])
+        if mine or not r["rec"]["present"]:
+            left.discard(r["sport"])
+        for sp in r["agone"]:
+            recd.discard(sp)
+            left.discard(sp)
 
     for i, r in enumerate(rows):
         e = r["e"]
         b = None
         if e == "reset":
-            pol, skp, pend, recd = {}, set(), {}, set()
+            pol, skp, pend = {}, set(), {}
+            recd.clear()
+            left.clear()
         elif e == "policy":
             if r["op"] == "add":
                 pol[(r["ip"], r["port"])] = (r["to_ip"], r["to_port"])
@@ -375,14 +404,12 @@ def diagnose(rows):
             agent = p["agent"] or r["pid"] in skp
             mode = "must" if p["div"] else "none" if agent else "may" if (p["ip"], p["port"]) in pol else "none"
             b = judge(i, r, mode, agent, p["ip"], p["port"])
-            if r["rec"]["present"]:
-                recd.add(r["sport"])
+            after_tcp(r, mode)
         elif e == "tcp":
             agent = r["pid"] in skp
             mode = "none" if agent else "may" if (r["dip"], r["dport"]) in pol else "none"
             b = judge(i, r, mode, agent, r["dip"], r["dport"])
-            if r["rec"]["present"]:
-                recd.add(r["sport"])
+            after_tcp(r, mode)
         elif e == "consume":
             if r["sport"] in recd and not r["found"]:
                 b = bad(i, "RecordTruth", "lost-before-consumed")
@@ -393,9 +420,19 @@ def diagnose(rows):
             elif r["agone"] != ([r["sport"]] if r["found"] else []):
                 b = bad(i, "RecordTruth", "earlier-record-lost")
             recd.discard(r["sport"])
+            left.discard(r["sport"])
+        elif e == "end":
+            if r["achg"]:
+                b = bad(i, "NoRecordOtherwise", "audit-changed-at-end")
+            elif r["agone"]:
+                b = bad(i, "RecordTruth", "earlier-record-lost")
+            if r["sport"] in recd:
+                left.add(r["sport"])
         if b:
             # a record of a diverted connect comes from update_local_map_entry; any other record from trace_v4's fallback
-            b["site"] = e if e != "tcp" else "connect4/update_local_map_entry" if mode == "must" else "trace_v4 fallback"
+            b["site"] = e if e != "tcp" else "trace_v4/update_audit_map_entry_sk (entry under the port not replaced)" \
+                if b["kind"] == "stale-record-on-reused-port" else "connect4/update_local_map_entry" if mode == "must" \
+                else "trace_v4 fallback"
             return b
     return None
 
@@ -490,6 +527,8 @@ def concrete_steps(beh, cz):
             out.append({"op": a, "pid": cz["pid"](s["pid"])})
         elif a == "release":
             out.append({"op": a, "sport": cz["sport"](s["sport"])})
+        elif a == "end_unconsumed":
+            out.append({"op": "end", "sport": cz["sport"](s["sport"])})
         elif a == "connect4":
             out.append({"op": a, "t": thr(s["t"]), "ip": cz["ip"](s["ip"]), "port": cz["port"](s["port"]),
                         "proto": cz["proto"](s["proto"])})
@@ -585,10 +624,18 @@ def random_run(rnd, consts, cap, *, same_ids, big=None, nsteps=80):
     agents = [{"pid": agent_pid, "tid": agent_pid, "uid": 0, "gid": 0},
               {"pid": agent_pid, "tid": agent_pid + 1, "uid": 0, "gid": 0}]
     steps, listed, pending, live, skipped = [], set(), {}, set(), False
-    sports = iter(rnd.sample(range(1024, 65536), 4000))
+    ended = []                 # ports whose connection ended unconsumed (a record may still lie there), not yet reused
+    fresh = iter(rnd.sample(range(1024, 65536), 4000))
+
+    def next_port():
+        # the kernel hands out a fresh port, or one whose connection is over (its record possibly still in the map)
+        if ended and rnd.random() < 0.6:
+            return ended.pop(rnd.randrange(len(ended)))
+        return next(fresh)
 
     def inflight():
-        return len(pending) + len(live)
+        # leftovers count: the random runs never make the LRU maps evict (the directed family does)
+        return len(pending) + len(live) + len(ended)
 
     def add_policy(d):
         steps.append({"op": "policy_add", "ip": d[0], "port": d[1], "to_ip": proxy[0], "to_port": proxy[1]})
@@ -601,7 +648,7 @@ def random_run(rnd, consts, cap, *, same_ids, big=None, nsteps=80):
 
     def tcp(key):
         t, d = pending.pop(key)
-        sp = next(sports)
+        sp = next_port()
         steps.append({"op": "tcp", "t": t, "sport": sp, "direct": False})
         live.add(sp)
 
@@ -651,16 +698,115 @@ def random_run(rnd, consts, cap, *, same_ids, big=None, nsteps=80):
                 continue
             t = rnd.choice(free)
             d = rnd.choice(listable + others)
-            sp = next(sports)
+            sp = next_port()
             steps.append({"op": "tcp", "t": t, "sport": sp, "direct": True, "dip": d[0], "dport": d[1]})
             live.add(sp)
-        elif live:
+        elif live and x < 0.93:
             sp = rnd.choice(sorted(live))
             steps.append({"op": "release", "sport": sp})
             live.discard(sp)
+        elif live:
+            sp = rnd.choice(sorted(live))
+            steps.append({"op": "end", "sport": sp})
+            live.discard(sp)
+            ended.append(sp)
     while pending:
         tcp(rnd.choice(list(pending)))
     return steps
+
+
+def leftover_runs(rnd, consts, cap):
+    """Directed runs (independent of the spec): a diverted connect whose connection ends while nobody consumed its
+    record, then the kernel hands the same local source port to a later connect.  Returns [(name, steps, evictions)].
+    Callers differ pairwise in uid, pid and uid = 0; uid != gid and no gid equals another caller's uid."""
+    proxy = (consts["proxy_ip"], consts["proxy_port"])
+    d1, d2, d3 = ("168.63.129.16", 80), ("169.254.169.254", 80), ("168.63.129.16", 32526)
+    unl = rnd.choice([("10.0.0.4", 443), ("168.63.129.16", 81), ("16.129.63.168", 80)])
+    base = rnd.randint(1000, 2 ** 20)
+    root = {"pid": base + 1, "tid": base + 1, "uid": 0, "gid": 2001}
+    user = {"pid": base + 2, "tid": base + 7, "uid": 1000, "gid": 2002}
+    user_b = {"pid": base + 2, "tid": base + 8, "uid": 1000, "gid": 2002}      # second thread of user's process
+    other = {"pid": base + 3, "tid": base + 3, "uid": 65534, "gid": 2003}
+    agent = {"pid": base + 9, "tid": base + 9, "uid": 0, "gid": 0}
+    ports = iter(rnd.sample(range(1024, 65536), 3 * cap + 64))
+
+    def pre(*dests):
+        return [{"op": "skip_add", "pid": agent["pid"]}] + \
+               [{"op": "policy_add", "ip": d[0], "port": d[1], "to_ip": proxy[0], "to_port": proxy[1]} for d in dests]
+
+    def conn(t, d, sp):
+        return [{"op": "connect4", "t": t, "ip": d[0], "port": d[1], "proto": TCP},
+                {"op": "tcp", "t": t, "sport": sp, "direct": False}]
+
+    def direct(t, d, sp):
+        return [{"op": "tcp", "t": t, "sport": sp, "direct": True, "dip": d[0], "dport": d[1]}]
+
+    def end(sp):
+        return [{"op": "end", "sport": sp}]
+
+    def rel(sp):
+        return [{"op": "release", "sport": sp}]
+    out = []
+    # the later connect is diverted too: the agent must read ITS record under the port
+    for nm, a, da, b, db in (("root-then-user", root, d1, user, d2), ("user-then-root", user, d2, root, d1),
+                             ("user-then-other-same-dest", user, d1, other, d1),
+                             ("same-process-other-thread-other-dest", user, d1, user_b, d3),
+                             ("same-caller-other-dest", other, d3, other, d2)):
+        p = next(ports)
+        out.append(("reuse-diverted-" + nm, pre(d1, d2, d3) + conn(a, da, p) + end(p) + conn(b, db, p) + rel(p), 0))
+    p, q = next(ports), next(ports)
+    out.append(("reuse-diverted-interleaved",          # the later connect is already between the hooks when the first ends
+                pre(d1, d2) + conn(root, d1, p) + [{"op": "connect4", "t": user, "ip": d2[0], "port": d2[1], "proto": TCP}] +
+                end(p) + [{"op": "tcp", "t": user, "sport": p, "direct": False}] + conn(other, d1, q) + rel(q) + rel(p), 0))
+    p = next(ports)
+    out.append(("reuse-chain",                           # three generations under one port, the last one consumed
+                pre(d1, d2, d3) + conn(root, d1, p) + end(p) + conn(user, d2, p) + end(p) + conn(other, d3, p) + rel(p) +
+                conn(root, d2, p) + rel(p), 0))
+    # the later connect produces no record: the leftover may stay (nothing is diverted to the proxy from that port),
+    # untouched; a diverted connect after that must still replace it
+    p = next(ports)
+    out.append(("reuse-unlisted", pre(d1, d2) + conn(root, d1, p) + end(p) + conn(user, unl, p) + end(p) +
+                conn(other, d2, p) + rel(p), 0))
+    p = next(ports)
+    out.append(("reuse-unlisted-direct", pre(d1) + conn(user, d1, p) + end(p) + direct(root, unl, p) + end(p) +
+                conn(root, d1, p) + rel(p), 0))
+    p = next(ports)
+    out.append(("reuse-delisted", pre(d1, d2) + conn(user, d1, p) + end(p) + [{"op": "policy_del", "ip": d2[0], "port": d2[1]}] +
+                conn(root, d2, p) + end(p) + conn(other, d1, p) + rel(p), 0))
+    p = next(ports)
+    out.append(("reuse-agent", pre(d1, d2) + conn(user, d1, p) + end(p) + conn(agent, d2, p) + end(p) +
+                direct(agent, d1, p) + end(p) + conn(root, d2, p) + rel(p), 0))
+    p = next(ports)
+    out.append(("reuse-non-tcp-between", pre(d1) + conn(user, d1, p) + end(p) +
+                [{"op": "connect4", "t": root, "ip": d1[0], "port": d1[1], "proto": 17}] + conn(root, d1, p) + rel(p), 0))
+    # the statement is silent on these two (a record may or may not be made; if made it is the new connect's)
+    p = next(ports)
+    out.append(("reuse-fallback-direct-listed", pre(d1, d2) + conn(root, d1, p) + end(p) + direct(user, d2, p) + rel(p), 0))
+    p = next(ports)
+    out.append(("reuse-listed-between-hooks", pre(d1) + conn(root, d1, p) + end(p) +
+                [{"op": "connect4", "t": user, "ip": d2[0], "port": d2[1], "proto": TCP},
+                 {"op": "policy_add", "ip": d2[0], "port": d2[1], "to_ip": proxy[0], "to_port": proxy[1]},
+                 {"op": "tcp", "t": user, "sport": p, "direct": False}] + rel(p), 0))
+    # consumed after all (the proxy is late, not absent), then reuse: nothing stale to meet
+    p = next(ports)
+    out.append(("consume-then-reuse", pre(d1, d2) + conn(root, d1, p) + rel(p) + conn(user, d2, p) + rel(p), 0))
+    # LRU: the map is full, its least recently used entry is a leftover; the next record evicts exactly that one
+    p = next(ports)
+    steps = pre(d1, d2, d3) + conn(user, d1, p) + end(p)
+    lives = []
+    callers = [root, user, user_b, other]
+    for i in range(cap - 1):
+        q = next(ports)
+        lives.append(q)
+        steps += conn(callers[i % 4], (d1, d2, d3)[i % 3], q)
+    q = next(ports)
+    # ... the agent finds nothing under the evicted leftover's port; one live record is consumed, which makes room
+    # for the port of the evicted leftover to be used again
+    steps += conn(root, d2, q) + rel(p) + rel(lives[0]) + conn(user, d3, p) + rel(p)
+    for q2 in rnd.sample(lives[1:] + [q], len(lives)):
+        steps += rel(q2)
+    out.append(("lru-evicts-leftover", steps, 1))
+    return out
 
 
 # ------------------------------------------------------------------------------------------------ analysis
@@ -733,6 +879,7 @@ class Analysis:
         rnd = random.Random(self.seed)
         consts = self.codec.hello
         mism, n_div, n_rec, steps_total = {}, 0, 0, 0
+        n_end, n_reuse, n_reuse_div = 0, 0, 0
         distinct = set()
         for bi, beh in enumerate(self.behs):
             cz = concretiser(rnd, consts)
@@ -748,6 +895,11 @@ class Analysis:
                     n_div += 1
                 if s["a"] in ("tcp", "tcp_direct") and s["after"]["audit"]:
                     n_rec += 1
+                if s["a"] == "end_unconsumed" and s["had"]:
+                    n_end += 1
+                if s["a"] in ("tcp", "tcp_direct") and s.get("over"):
+                    n_reuse += 1
+                    n_reuse_div += 1 if s.get("div") else 0
                 if first is None:
                     diff = compare_step(s, st, row, info, cz)
                     if diff:
@@ -765,6 +917,9 @@ class Analysis:
                 mism[("count", key)] += 1
         self.stats["replay"] = {"behaviours": len(self.behs), "steps": steps_total, "diverted_connects": n_div,
                                 "steps_with_records": n_rec, "nontrivial_distinct": len(distinct),
+                                "connections_ended_with_record_unconsumed": n_end,
+                                "connects_given_the_port_of_a_leftover": n_reuse,
+                                "diverted_connects_given_the_port_of_a_leftover": n_reuse_div,
                                 "mismatching": {"%s@%s" % k[1]: v for k, v in mism.items() if k[0] == "count"}}
         self.distinct = distinct
         for key, val in sorted((k, v) for k, v in mism.items() if k[0] != "count"):
@@ -791,21 +946,35 @@ class Analysis:
                 plans[fam].append(random_run(rnd, consts, self.cap, same_ids=same, big=self.cap))
             for _ in range(n):
                 plans[fam].append(random_run(rnd, consts, self.cap, same_ids=same, nsteps=rnd.choice([30, 80, 160])))
-        out = {}
+        # family L: directed port-reuse runs (a record outlives its connection, the port is handed out again)
+        directed = leftover_runs(rnd, consts, self.cap)
+        plans["L"] = [st for _, st, _ in directed]
+        want_evict = {"L": [ev for _, _, ev in directed]}
+        out, evicted = {}, {}
         for fam, runs in plans.items():
             rows, idx, maxfl, evict = [], [], 0, 0
-            for steps in runs:
+            for k, steps in enumerate(runs):
                 idx.append(len(rows))
                 rows.append({"e": "reset"})
+                ev = 0
                 for r, info in self.m.run(steps):
                     rows.append(r)
                     maxfl = max(maxfl, len(info["audit"]) + len(info["local"]))
-                    evict = max(evict, sum(info["evictions"].values()))
+                    ev = max(ev, sum(info["evictions"].values()))
+                if fam in want_evict:
+                    # the program decides what it evicts and TLC judges it (only leftovers may go); on the unchanged
+                    # program the directed runs evict exactly what they were built for
+                    evicted[directed[k][0]] = {"evictions": ev, "built_for": want_evict[fam][k]}
+                else:
+                    evict = max(evict, ev)
             if evict:
                 raise util.ToolError("the random driver exceeded the map capacity (evictions=%d)" % evict)
             name = "%s_rand_%s" % (self.label, fam)
             ok, why, res = validate_trace(self.c, "EbpfTrace", "EbpfTrace.cfg", rows, name, count=len(runs), timeout=1200)
             out[fam] = {"runs": len(runs), "rows": len(rows), "max_in_flight": maxfl, "accepted": ok}
+            if fam == "L":
+                out[fam]["scenarios"] = [nm for nm, _, _ in directed]
+                out[fam]["lru_evictions"] = {k: v for k, v in evicted.items() if v["evictions"] or v["built_for"]}
             if ok:
                 continue
             if why.startswith("trace not matched"):
@@ -865,7 +1034,13 @@ def run(c):
 
     # 1. the design: every interleaving of the small configuration, every invariant in every state
     c.tlc("Ebpf", "Ebpf.cfg", workers=8, timeout=600,
-          required_actions=["PolicyAdd", "PolicyRemove", "SkipAdd", "Release", "Connect4", "TcpConnect", "TcpConnectDirect"])
+          required_actions=["PolicyAdd", "PolicyRemove", "SkipAdd", "Release", "EndUnconsumed", "Connect4", "TcpConnect",
+                            "TcpConnectDirect"])
+    # records that outlive their connection (EndUnconsumed) and the reuse of their source ports (TcpConnectReuse):
+    # 3 callers, both addresses listable, source ports symmetric; MaxLeft leftovers at a time (Ebpf.cfg: none)
+    c.tlc("Ebpf", "EbpfLeft2.cfg" if thorough else "EbpfLeft.cfg", workers=8, timeout=1200,
+          required_actions=["PolicyAdd", "PolicyRemove", "SkipAdd", "Release", "EndUnconsumed", "Connect4", "TcpConnect",
+                            "TcpConnectReuse", "TcpConnectDirect"])
     # non-gating: connects that die between the hooks (outside the quantifier) -- information only
     ab = tlcmod.run("Ebpf", os.path.join("mc", "EbpfAbort.cfg"), util.SPEC, workers=4, timeout=300, coverage=False)
     c.extra["info_abort_between_hooks_model"] = (
@@ -911,11 +1086,14 @@ def run(c):
         codec.close()
     c.exhaustive = False
     c.rule = ("TLC: all interleavings of mc/Ebpf.cfg (4 threads incl. uid!=gid, pid!=tid, agent; 2x2 addresses, TCP/UDP, "
-              "policy add/remove, capacity 2). S->I: each -simulate behaviour of gen/EbpfGen (7 threads, 3 ips, 3 "
+              "policy add/remove, capacity 2) and of mc/EbpfLeft.cfg (records outliving their connection, their source "
+              "ports handed out again, LRU eviction of leftovers). S->I: each -simulate behaviour of gen/EbpfGen (7 threads, 3 ips, 3 "
               "protocols) is concretised with seeded ids/addresses/ports and stepped through the real C program; ctx "
               "rewrite, audit map (decoded by the repo's Rust) and local map compared with the spec after every step. "
               "I->S: seeded random runs (two families: uid==gid / uid!=gid) incl. max_entries connections in flight, "
-              "judged by TLC with trace/EbpfTrace. distinct_nontrivial = distinct generated behaviours containing at "
+              "connections ending unconsumed and reuse of their ports, plus a directed family (L) of port-reuse runs "
+              "(leftover then diverted / unlisted / agent / fallback connect on the same port, LRU eviction of a "
+              "leftover), judged by TLC with trace/EbpfTrace. distinct_nontrivial = distinct generated behaviours containing at "
               "least one diverted connect + distinct random runs")
 
 
@@ -960,6 +1138,8 @@ MUTANTS = [
      "typedef struct _sock_addr_audit_entry\n{\n    __u32 process_id;\n    __u32 logon_id;"),
     ("policy-port-host-order", "ebpf_cgroup.c", "    entry.destination_port = ctx->user_port;\n    entry.protocol = ctx->protocol;\n\n    // Find",
      "    entry.destination_port = ((ctx->user_port & 0xFF) << 8) | ((ctx->user_port >> 8) & 0xFF);\n    entry.protocol = ctx->protocol;\n\n    // Find"),
+    ("audit-update-noexist", "ebpf_cgroup.c", "\n    __u64 ret = bpf_map_update_elem(&audit_map, &key, &entry, 0);",
+     "\n    __u64 ret = bpf_map_update_elem(&audit_map, &key, &entry, BPF_NOEXIST);"),
     ("no-local-delete", "ebpf_cgroup.c", "        __u64 ret = bpf_map_delete_elem(&local_map, &pid_tgid);", "        __u64 ret = 0;"),
 ]
 FIX = [("ebpf_cgroup.c", "(__u32)(bpf_get_current_uid_gid() >> 32)", "(__u32)(bpf_get_current_uid_gid() & 0xFFFFFFFF)")]
@@ -980,6 +1160,8 @@ def scratch_copy(name, edits):
     for fn, old, new in edits:
         p = os.path.join(d, fn)
         s = open(p).read()
+        if old not in s and (fn, old, new) in FIX and new in s:
+            continue                                   # the repository already carries the uid fix
         if old not in s:
             raise util.ToolError("mutant %s: pattern not found in %s" % (name, fn))
         open(p, "w").write(s.replace(old, new))
